@@ -234,6 +234,54 @@ fn run(ctx: &mut Ctx) {
             check(ctx, &a.encode(), "channel");
         }
     });
+    // ---- sample counts at and beyond the 16-bit limits (requested_samples is a 16-bit field, the slice is not)
+    ctx.cases("huge", ctx.tier.pick(12, 60), |ctx, i, rng| {
+        let ns = [32766usize, 32767, 32768, 65533, 65534, 65535, 65536, 65537, 65536 + 64, 65536 + 697, 131072, 70000];
+        let n = ns[(i as usize) % ns.len()];
+        let kind = rng.usize(12);
+        let wf = content(rng, kind, n);
+        for (sup, kb, kl) in [(false, false, 0u16), (true, true, 34), (false, true, 34), (true, true, 4095)] {
+            for rs in [699u16, (n as u64 + 2).min(65535) as u16, 65535, ((n + 2) & 0xFFFF) as u16, (n & 0xFFFF) as u16, 2, 0] {
+                let mut a = Adc::simple(A16_MACS[(i % 8) as usize].1, 9, wf.clone());
+                a.suppression = sup;
+                a.keep_bit = kb;
+                a.keep_last = kl;
+                a.requested_samples = rs;
+                check(ctx, &a.encode(), "huge sample count");
+            }
+        }
+        ctx.count("packets with >= 32766 samples decoded");
+    });
+    // ---- history independence: what was decoded before must not matter (a memo keyed by a lossy digest of the MAC
+    // would). After a successful decode of board b: MACs that differ from b's in one byte, or in two bytes by the
+    // same xor delta, then the valid packet again; every decision is still compared with the reference.
+    ctx.cases("history", 8, |ctx, i, rng| {
+        let wf = content(rng, 3, 70);
+        let good = Adc::simple(A16_MACS[i as usize].1, 3, wf.clone()).encode();
+        for a in 0..6 {
+            for b in a..6 {
+                for d in [1u8, 0x40, 0x80, 0xFF, 0x0F] {
+                    check(ctx, &good, "history: valid packet first");
+                    let mut mac = A16_MACS[i as usize].1;
+                    mac[a] ^= d;
+                    if b != a {
+                        mac[b] ^= d;
+                    }
+                    check(ctx, &Adc::simple(mac, 3, wf.clone()).encode(), "history: near-miss MAC right after a success");
+                }
+            }
+        }
+        // another board's packet in between, then the first again
+        let other = Adc::simple(A16_MACS[(i as usize + 3) % 8].1, 3, wf.clone()).encode();
+        check(ctx, &other, "history: other board");
+        check(ctx, &good, "history: first board again");
+        // the same decisions from a thread without any history
+        let (g2, o2) = (good.clone(), other.clone());
+        match fresh_thread(move || (adc_lib(&g2), adc_lib(&o2))) {
+            Ok((a, b)) if a == adc_lib(&good) && b == adc_lib(&other) => ctx.count("fresh-thread decodes identical to in-history decodes"),
+            _ => ctx.violation("decode result depends on what was decoded before (differs from a fresh thread)", String::new(), json!({"bytes": hex(&good)})),
+        }
+    });
     // ---- random mutations of (mostly accepted) packets
     let nrand = ctx.tier.pick(120_000, 3_000_000);
     ctx.cases("random", nrand, |ctx, _i, rng| {
